@@ -26,7 +26,9 @@ def build(world):
 
 
 STREAMS = [b"1;2;3;0;0;x\n", b"a\nb\n", b"\n\n", b"\xff\xfe\n", b"abc", b"", b"ok\n\xc3", b"\xc3\xa9;1\nz\n", b"x" * 70000 + b"\n",
-           b"x" * 70000 + b"\n1;1;1;0;0;20.5\n", b"\xff\n1;1;1;0;0;20.5\n"]
+           b"x" * 70000 + b"\n1;1;1;0;0;20.5\n", b"\xff\n1;1;1;0;0;20.5\n",
+           # characters a lenient or "smart" codec treats specially: byte order mark, NUL, other line separators, surrogate-range bytes
+           b"\xef\xbb\xbf\n", b"\xef\xbb\xbf1;1;1;0;0;1\n\xef\xbb\xbfx\n", b"a\x00b\n", b"a\rb\r\n", b"\xe2\x80\xa8x\n", b"\xed\xa0\x80\n", b"\xc0\xaf\n"]
 
 
 def feed_and_read(data, chunks):
